@@ -159,3 +159,94 @@ func checkC10(c Case, r *vcore.Rec) *vcore.Failure {
 func TestC10(t *testing.T) {
 	vcore.Run(t, "C10", rapid.Custom(func(t *rapid.T) Case { return GenHistory(t, c10Params) }), checkC10)
 }
+
+var c07Params = &HistoryParams{MinOps: 10, MaxOps: 35, Cloud: 0, Episodes: true, Phrases: 20,
+	Weights: map[string]int{"create": 22, "sched": 10, "filter": 10, "bind": 6, "poolapi": 12, "poolobj": 4, "delete": 6, "deliver": 6,
+		"unbind": 6, "drop": 0, "reserve": 0, "unreserve": 0, "fipevent": 0, "apirelease": 1, "restart": 0, "episode": 30, "resync": 2,
+		"recreate": 1, "scale": 1, "delwl": 0, "mkwl": 0, "phase": 2, "quiesce": 1},
+	Kinds: []string{"dppool"}, Policies: []string{"", "never", "immutable"}}
+
+func genC07() *rapid.Generator[Case] {
+	return rapid.Custom(func(t *rapid.T) Case {
+		c := GenHistory(t, c07Params)
+		c.NoNameReuse = true
+		// every deployment shares one of two pools and every pool has a Pool object with a size
+		have := map[string]bool{}
+		for _, p := range c.PoolObjs {
+			have[p.Name] = true
+		}
+		for _, wl := range c.WLs {
+			if wl.Pool != "" && !have[wl.Pool] {
+				have[wl.Pool] = true
+				c.PoolObjs = append(c.PoolObjs, PoolObj{Name: wl.Pool, Size: rapid.IntRange(0, 4).Draw(t, "size")})
+			}
+		}
+		// episodes of this property: concurrent filters of different pods, pool create/update with pre-allocation, unbind
+		for i := range c.Ops {
+			if c.Ops[i].K == "episode" {
+				n := rapid.IntRange(2, 3).Draw(t, "nSub7")
+				c.Ops[i].Sub = nil
+				for j := 0; j < n; j++ {
+					k := rapid.SampledFrom([]string{"filter", "filter", "sched", "poolapi", "poolapi", "unbind"}).Draw(t, "sub7")
+					c.Ops[i].Sub = append(c.Ops[i].Sub, Op{K: k, A: rapid.IntRange(0, 7).Draw(t, "a7"), B: rapid.IntRange(0, 63).Draw(t, "b7"),
+						C: rapid.IntRange(0, 7).Draw(t, "c7")})
+				}
+			}
+		}
+		return c
+	})
+}
+
+func checkC07(c Case, r *vcore.Rec) *vcore.Failure {
+	o := &ObsC07{}
+	x, f := runHistory(c, r, o)
+	if x == nil {
+		return f
+	}
+	r.ClassIf(o.PreAlloc, "pre_allocation")
+	if x.Stats["episode_overlapped"] > 0 {
+		r.NonTrivial()
+	}
+	return f
+}
+
+func TestC07(t *testing.T) {
+	vcore.Run(t, "C07", genC07(), checkC07)
+}
+
+var c09Params = &HistoryParams{MinOps: 12, MaxOps: 40, Cloud: 0, Episodes: true, Reloads: true, Phrases: 25, Ranges: true,
+	Weights: map[string]int{"reload": 14, "reserve": 8, "unreserve": 3, "fipevent": 8, "sched": 18, "create": 16, "drop": 0, "restart": 1,
+		"syncips": 4, "apirelease": 3, "poolapi": 2}}
+
+func genC09() *rapid.Generator[Case] {
+	return rapid.Custom(func(t *rapid.T) Case {
+		c := GenHistory(t, c09Params)
+		for i := range c.Ops {
+			if c.Ops[i].K == "episode" && rapid.IntRange(0, 2).Draw(t, "reloadEpisode") > 0 {
+				// a reload concurrently with allocate / release / pod-IP sync / reservation events
+				other := rapid.SampledFrom([]string{"sched", "sched", "unbind", "syncips", "fipevent", "apirelease", "bind"}).Draw(t, "vsReload")
+				c.Ops[i].Sub = []Op{{K: "reload", A: rapid.IntRange(0, 7).Draw(t, "cfg")},
+					{K: other, A: rapid.IntRange(0, 7).Draw(t, "a9"), B: rapid.IntRange(0, 63).Draw(t, "b9"), C: rapid.IntRange(0, 7).Draw(t, "c9")}}
+			}
+		}
+		return c
+	})
+}
+
+func checkC09(c Case, r *vcore.Rec) *vcore.Failure {
+	o := &ObsC09{}
+	x, f := runHistory(c, r, o)
+	if x == nil {
+		return f
+	}
+	r.ClassIf(o.DroppedKept, "reload_dropped_and_kept")
+	r.ClassIf(x.Stats["op:reserve"] > 0, "reservation")
+	if o.DroppedKept || (x.Stats["episode_overlapped"] > 0 && x.Stats["op:reload"] > 0) {
+		r.NonTrivial()
+	}
+	return f
+}
+
+func TestC09(t *testing.T) {
+	vcore.Run(t, "C09", genC09(), checkC09)
+}
